@@ -149,6 +149,9 @@ func genExp(t *rapid.T) ExpCase {
 		no := rapid.IntRange(1, 4).Draw(t, l+".no")
 		for oi := 0; oi < no; oi++ {
 			inv := oi > 0 && rapid.IntRange(0, 4).Draw(t, fmt.Sprintf("%s.inv%d", l, oi)) == 0
+			if oi == 0 && no == 1 && rapid.IntRange(0, 9).Draw(t, l+".onlyinv") == 0 {
+				inv = true // a step that expects nothing and forbids something
+			}
 			st.Outputs = append(st.Outputs, genExpOutput(t, fmt.Sprintf("%s.o%d", l, oi), inv))
 		}
 		c.Steps = append(c.Steps, st)
@@ -226,7 +229,11 @@ func modelVerdict(c ExpCase) (pass bool, why string, features []string) {
 				need++
 			}
 		}
-		done := need == 0
+		// a step that only forbids outputs still looks at the stream: at
+		// least at the first message that arrives (the tool returns after
+		// the first JSON line once nothing more is needed)
+		onlyForbids := need == 0 && len(st.Outputs) > 0
+		done := need == 0 && !onlyForbids
 		for pos < len(stream) && !done {
 			line := stream[pos]
 			pos++
@@ -262,6 +269,10 @@ func modelVerdict(c ExpCase) (pass bool, why string, features []string) {
 			if need == 0 {
 				done = true
 			}
+		}
+		if !done && onlyForbids {
+			// no message arrived at all: nothing forbidden was seen
+			continue
 		}
 		if !done {
 			features = append(features, "expectation-never-satisfied")
